@@ -11,6 +11,7 @@ let () =
   | _ :: "parsort" :: file :: _ -> Parsort_cmd.run_file file
   | _ :: "parsort-pib" :: file :: _ -> Parsort_cmd.pib_file file
   | _ :: "layout" :: file :: _ -> Match_cmd.layout_file file
+  | _ :: "nucleo-gen" :: seed :: count :: table :: _ -> Nucleo_cmd.gen ~tablefile:table (int_of_string seed) (int_of_string count)
   | _ :: "nucleo-gen" :: seed :: count :: _ -> Nucleo_cmd.gen (int_of_string seed) (int_of_string count)
   | _ :: "nucleo" :: file :: table :: _ -> Nucleo_cmd.run_file file table
   | _ :: "boxcar" :: file :: _ -> Boxcar_cmd.run_file file
